@@ -67,7 +67,9 @@ func (s *KeyBuilder) Compile(template string) (*CompiledKeyBuilder, *CompilerErr
 
 		if r == '\\' { // Escape
 			i++
-			sb.WriteRune(unescape(runes[i]))
+			if i < len(runes) { // a trailing backslash escapes nothing (the argument splitter drops it too)
+				sb.WriteRune(unescape(runes[i]))
+			}
 		} else if r == '{' {
 			if inStatement == 0 { // starting a new token
 				if sb.Len() > 0 {
